@@ -689,6 +689,14 @@ def run(chk, db, tier):
     sub.rule("R7", "event pump totality: no character-data event is dropped")
     sub.guard("R6", c13.rule_r6, db)
     sub.guard("R7", c13.rule_r7, db)
+    # ... and a payload without a required member is refused (the decoder's strictness skeleton)
+    sub4 = Sub(chk, "C13", rules=["R4"])
+    sub4.rule("R4", "strictness skeleton: unknown tag -> error; repeated non-flattened member -> DuplicateField; required members -> MissingField")
+    dec = {}
+    for b in db.grep('"impl_trait":"s3s::xml::de::DeserializeContent"'):
+        if b.kind == "AssocFn" and b.impl_trait.startswith(c13.DE + "DeserializeContent") and b.impl_self.startswith(c13.DTO):
+            dec[short(b.impl_self)] = b
+    sub4.guard("R4", c13.rule_r2_r4, db, c13.load_model(), dec)
     # ... and for the members bound to the URI path: the parsers cut bucket and key out of the path without touching their characters
     from . import c12
     sub12 = Sub(chk, "C12")
